@@ -45,21 +45,28 @@ AstGet(ast, k) == LET I == {i \in 1..Len(ast) : ast[i][1] = k} IN
 AstPut(ast, k, v) == IF AstHas(ast, k)
                      THEN [i \in 1..Len(ast) |-> IF ast[i][1] = k THEN <<k, v>> ELSE ast[i]]
                      ELSE Append(ast, <<k, v>>)
-AstSet(ast, k, node)     == AstPut(ast, k, CstAdd(AstGet(ast, k), node))
-AstSetList(ast, k, node) == AstPut(ast, k, CstAddList(AstGet(ast, k), node))
+\* docs/syntax.rst: "If a name collides with a Python keyword or builtin, an underscore will be appended": at the AST level the names
+\* that collide are the attributes of dict (contexts/ast.py: AST._safekey)
+DictAttrs == {"clear", "copy", "fromkeys", "get", "items", "keys", "pop", "popitem", "setdefault", "update", "values"}
+RECURSIVE SafeKey(_)
+SafeKey(k) == IF k \in DictAttrs THEN SafeKey(k \o "_") ELSE k
+AstSet(ast, k0, node)     == LET k == SafeKey(k0) IN AstPut(ast, k, CstAdd(AstGet(ast, k), node))
+AstSetList(ast, k0, node) == LET k == SafeKey(k0) IN AstPut(ast, k, CstAddList(AstGet(ast, k), node))
 
 RECURSIVE DefineAll(_, _, _)
 DefineAll(ast, ks, dflt) ==
   IF ks = {} THEN ast
-  ELSE LET k == CHOOSE k \in ks : TRUE IN
-       DefineAll(IF AstHas(ast, k) THEN ast ELSE Append(ast, <<k, dflt>>), ks \ {k}, dflt)
+  ELSE LET k0 == CHOOSE k \in ks : TRUE  k == SafeKey(k0) IN
+       DefineAll(IF AstHas(ast, k) THEN ast ELSE Append(ast, <<k, dflt>>), ks \ {k0}, dflt)
 
 \* ---- equality of results: tag first, lists modulo open/closed, dicts as unordered maps
 RECURSIVE VEq(_, _)
 VEq(a, b) ==
   /\ a.t = b.t
   /\ CASE a.t \in {"n", "u"} -> TRUE
-       [] a.t \in {"s", "i", "b"} -> a.v = b.v
+       [] a.t \in {"s", "b", "x"} -> a.v = b.v              \* "x": an opaque object produced by a semantic action (type name + identity)
+       [] a.t = "i" -> a.v = b.v /\ ("neg" \in DOMAIN a /\ a.neg) = ("neg" \in DOMAIN b /\ b.neg)
+       [] a.t = "f" -> TRUE      \* the spec carries the matched text, the engine a float: the numeric conversion is compared in Python (C08)
        [] a.t = "l" -> Len(a.v) = Len(b.v) /\ \A i \in 1..Len(a.v) : VEq(a.v[i], b.v[i])
        [] a.t = "d" -> /\ Len(a.v) = Len(b.v)
                        /\ \A i \in 1..Len(a.v) : \E j \in 1..Len(b.v) : a.v[i][1] = b.v[j][1] /\ VEq(a.v[i][2], b.v[j][2])
